@@ -76,12 +76,21 @@ def check(ctx, cfg, prog, rule, scope, floor):
         rb = {_base_name(x) for x in (cb | set().union(*[_reach(prog, c, memo) for c in cb])) if keep(x)} if cb else set()
         n += 1
 
-        def wrapper_only(x, other):
-            # a helper that merely regroups calls the other twin also reaches (an extracted private helper)
-            rx = {_base_name(y) for y in _reach(prog, x, memo) if keep(y)} if x in prog.bodies else set()
-            return bool(rx) and rx <= other
-        only_a = sorted(x for x in ra - rb if not wrapper_only(x, rb))
-        only_b = sorted(x for x in rb - ra if not wrapper_only(x, ra))
+        da = {_base_name(x) for x in ca if keep(x)}
+        db = {_base_name(x) for x in cb if keep(x)}
+
+        def wrapper_only(x, other_reach, other_direct):
+            # a helper that merely regroups calls the other twin makes *itself* (an extracted private helper): everything
+            # it reaches the other twin reaches too, and what it calls directly the other twin calls directly - a callee
+            # the other twin only reaches deep inside a shared callee (a canonicalisation buried in the insertion layer)
+            # does not make the helper redundant
+            if x not in prog.bodies:
+                return False
+            rx = {_base_name(y) for y in _reach(prog, x, memo) if keep(y)}
+            dx = {_base_name(y) for y in _callees(prog, x) if keep(y)}
+            return bool(rx) and rx <= other_reach and dx <= other_direct
+        only_a = sorted(x for x in ra - rb if not wrapper_only(x, rb, db))
+        only_b = sorted(x for x in rb - ra if not wrapper_only(x, ra, da))
         ok = not only_a and not only_b
         b = prog.bodies[twin]
         ctx.ob(rule, 'TWINSET|' + base, cfg, ok,
